@@ -74,6 +74,16 @@ func (e *stEnv) writeAttempts(obj, sub string) string {
 			}()
 		}
 	}
+	// the probes every deployment sends to the read and syntax APIs
+	for _, h := range []http.Handler{e.nets[0].read, e.syntax} {
+		for _, path := range []string{"/health/ready", "/health/alive", "/version", "/namespaces"} {
+			func() {
+				defer func() { _ = recover() }()
+				w := httptest.NewRecorder()
+				h.ServeHTTP(w, httptest.NewRequest("GET", path, nil))
+			}()
+		}
+	}
 	conns, err := e.grpcProbeConns()
 	if err != nil {
 		return "setup:" + err.Error()
